@@ -14,7 +14,7 @@ from collections import deque
 KEYS = [(1, 3, 1, 2), (1, 3, 1, 3), (1, 4, 1, 2), (2, 3, 1, 2), (1, 255, 3, 13)]  # (node, child, command, type)
 
 
-def run_plan(version: str, cmds: list, wakes: list, plan: list):
+def run_plan(version: str, cmds: list, wakes: list, plan: list, fault: str = "failed"):
     """One execution: park cmds, deliver wakes with the fail plan, then one fault-free wake per node.
     Returns (attempts_seen_in_faulty_phase, violations, trace)."""
     viols = []
@@ -36,8 +36,11 @@ def run_plan(version: str, cmds: list, wakes: list, plan: list):
     trace = []
 
     def bad(k, what):
-        viols.append((f"C08|{k}", f"[{version}] parked {cmds}, wakes {wakes}, fail plan {plan}: {what}", None))
+        viols.append((f"C08|{k}", f"[{version}] parked {cmds}, wakes {wakes}, fail plan {plan} (write raises {FAULT_CLASSES[fault].__name__}): {what}", None))
 
+    from ..harness import FAULT_CLASSES
+
+    s.transport.fault_class = FAULT_CLASSES[fault]
     s.transport.fail_plan = deque(plan)
     nattempts = 0
     for phase, wl in (("faulty", wakes), ("final", [1, 2])):
@@ -74,19 +77,20 @@ def run_plan(version: str, cmds: list, wakes: list, plan: list):
 
 
 def explore_case(job):
-    version, cmds, wakes = job
+    version, cmds, wakes = job[:3]
+    fault = job[3] if len(job) > 3 else "failed"
     viols = []
     n_exec = 0
     n_faulty = 0
     stack = [[]]
     while stack:
         plan = stack.pop()
-        nattempts, v, _ = run_plan(version, cmds, wakes, plan)
+        nattempts, v, _ = run_plan(version, cmds, wakes, plan, fault)
         n_exec += 1
         if any(plan):
             n_faulty += 1
         for k, w, _x in v:
-            viols.append((k, w, {"version": version, "cmds": cmds, "wakes": wakes, "plan": plan}))
+            viols.append((k, w, {"version": version, "cmds": cmds, "wakes": wakes, "plan": plan, "fault": fault}))
         # branch: flip each later attempt to a failure (attempts beyond the plan default to ok)
         for i in range(len(plan), nattempts):
             stack.append(plan + [False] * (i - len(plan)) + [True])
@@ -97,7 +101,9 @@ def run(ctx: core.Ctx) -> core.Report:
     versions = ["2.1", "2.2"] if ctx.quick else ["2.0", "2.1", "2.2"]
     subsets = [list(c) for r in range(1, 5) for c in itertools.combinations(KEYS, r)]
     wake_seqs = [list(w) for r in range(1, 4) for w in itertools.product((1, 2), repeat=r)]
-    jobs = [(v, [list(k) for k in sub], w) for v in versions for sub in subsets for w in wake_seqs]
+    jobs = [(v, [list(k) for k in sub], w, "failed") for v in versions for sub in subsets for w in wake_seqs]
+    # the Transport contract is TransportError: also a plain TransportError and a transport's own subclass
+    jobs += [(versions[-1], [list(k) for k in sub], w, f) for f in ("plain", "custom") for sub in subsets if len(sub) <= 3 for w in wake_seqs if len(w) <= 2]
     res = core.pmap(explore_case, jobs, ctx.workers)
     n_exec = sum(r[0] for r in res)
     n_faulty = sum(r[1] for r in res)
@@ -110,9 +116,9 @@ def run(ctx: core.Ctx) -> core.Report:
         "bounds": {"versions": versions, "subsets": len(subsets), "wake_sequences": len(wake_seqs)},
         "samples": [{"version": jobs[i][0], "cmds": jobs[i][1], "wakes": jobs[i][2]} for i in (ctx.seed % len(jobs), len(jobs) - 1)],
     }
-    return core.Report(level="fault_enumeration", coverage=cov, violations=viols, assumptions=["fault = Transport.write raises TransportFailedError; sequential semantics (races are C09)"])
+    return core.Report(level="fault_enumeration", coverage=cov, violations=viols, assumptions=["fault = Transport.write raises TransportFailedError, a plain TransportError or a transport's own TransportError subclass; sequential semantics (races are C09)"])
 
 
 def replay(data: dict) -> dict:
-    _, v, trace = run_plan(data["version"], data["cmds"], data["wakes"], data["plan"])
+    _, v, trace = run_plan(data["version"], data["cmds"], data["wakes"], data["plan"], data.get("fault", "failed"))
     return {"violated": bool(v), "violations": [{"key": k, "what": w} for k, w, _ in v], "trace": trace}
